@@ -13,7 +13,12 @@ ROOT = os.path.dirname(os.path.abspath(__file__))
 BV = '/verif/bin/bvcheck'
 
 def sh(*a, **kw):
-    return subprocess.run(a, stdout=subprocess.PIPE, stderr=subprocess.STDOUT, text=True, **kw)
+    try:
+        return subprocess.run(a, stdout=subprocess.PIPE, stderr=subprocess.STDOUT, text=True, timeout=900, **kw)
+    except subprocess.TimeoutExpired as e:
+        class R: pass
+        r = R(); r.returncode = 124; r.stdout = 'TIMEOUT ' + str(e)
+        return r
 
 def run_case(case, keep=False):
     wt = tempfile.mkdtemp(prefix='bvst_', dir='/tmp')
